@@ -97,3 +97,18 @@ Section Meaning.
       rewrite (IH s'); [reflexivity|]. intros s0 Hs0. apply H. right; exact Hs0.
   Qed.
 End Meaning.
+
+(* ---------- a relation as a number ---------- *)
+(* codegen/base.py (_doprint) and atoms.Assignment.resolve_expression write an assignment whose right-hand side is a relation
+   r as the conditional  Conditional(r, 1, 0).  In every carrier with the selection laws the two have the same value. *)
+Section Indicator.
+  Context {T : Type} (N : NumOps T).
+  Hypothesis L : SelLaws N.
+  Theorem indicator_conditional_is_the_relation rho r a b :
+    eval N rho (ECond (ERel r a b) e_one e_zero) = eval N rho (ERel r a b).
+  Proof.
+    cbn [eval]. destruct (rel_bool N L r (eval N rho a) (eval N rho b)) as [E|E]; rewrite E.
+    - apply (sel_true N L).
+    - apply (sel_false N L).
+  Qed.
+End Indicator.
